@@ -237,3 +237,136 @@ pub fn explore_pair(loud: &SeqCfg, threads: usize) -> SeqReport {
     rep.wall_s = t0.elapsed().as_secs_f64();
     rep
 }
+
+/// Differential exploration of two configurations with the same alphabet (C20: eviction policy
+/// none vs random with an unreachable limit): every history up to the depth is applied to both;
+/// responses must be byte-identical and the stores equal after every command.
+pub fn explore_diff(a: &SeqCfg, b: &SeqCfg, threads: usize) -> SeqReport {
+    let t0 = Instant::now();
+    let n = a.alphabet.len();
+    let mut rep = SeqReport { cfg_name: format!("{} vs {}", a.name, b.name), ..Default::default() };
+    const SHARDS: usize = 64;
+    let seen: Vec<Mutex<HashSet<(u128, u128)>>> = (0..SHARDS).map(|_| Mutex::new(HashSet::new())).collect();
+    let insert = |fp: (u128, u128)| -> bool { seen[(fp.0 as usize) % SHARDS].lock().unwrap().insert(fp) };
+    let transitions = AtomicU64::new(0);
+    let executions = AtomicU64::new(0);
+    let states = AtomicU64::new(1);
+    let found: Mutex<BTreeMap<String, Found>> = Mutex::new(BTreeMap::new());
+    let stop = AtomicBool::new(false);
+    let mach: Mutex<Option<String>> = Mutex::new(None);
+    let mut frontier: Vec<Hist> = vec![vec![]];
+    rep.level_states.push(1);
+    let mut depth = 0;
+    while !frontier.is_empty() && depth < a.depth {
+        let next: Mutex<Vec<Hist>> = Mutex::new(vec![]);
+        let idx = AtomicUsize::new(0);
+        let fr = &frontier;
+        std::thread::scope(|s| {
+            for _ in 0..threads.max(1) {
+                s.spawn(|| {
+                    crate::sut::set_quiet(true);
+                    let mut local: Vec<Hist> = vec![];
+                    loop {
+                        if stop.load(Ordering::Relaxed) {
+                            break;
+                        }
+                        let i = idx.fetch_add(1, Ordering::Relaxed);
+                        if i >= fr.len() {
+                            break;
+                        }
+                        let h = &fr[i];
+                        crate::watchdog::working_on(format!("[{}] differential history [{}]", a.name, hist_text(a, h).join(" ; ")));
+                        for ci in 0..n {
+                            crate::watchdog::beat();
+                            let mut ra = Runner::new(a);
+                            let mut rb = Runner::new(b);
+                            if let Err(e) = ra.run_history(h).and_then(|_| rb.run_history(h)) {
+                                *mach.lock().unwrap() = Some(e);
+                                stop.store(true, Ordering::Relaxed);
+                                break;
+                            }
+                            executions.fetch_add(2, Ordering::Relaxed);
+                            let apa = ra.apply(ci, &[]);
+                            let apb = rb.apply(ci, &[]);
+                            if !apa.applicable || !apb.applicable {
+                                continue;
+                            }
+                            transitions.fetch_add(1, Ordering::Relaxed);
+                            let mut nh = h.clone();
+                            nh.push(Elem { cmd: ci as u16, choices: vec![] });
+                            let da = ra.world.dump();
+                            let db = rb.world.dump();
+                            let differs = if apa.out_bytes != apb.out_bytes {
+                                let (x, _) = wire::split_responses(&apa.out_bytes);
+                                let (y, _) = wire::split_responses(&apb.out_bytes);
+                                Some(format!(
+                                    "responses differ: {:?} / {:?}",
+                                    x.iter().map(|r| r.short()).collect::<Vec<_>>(),
+                                    y.iter().map(|r| r.short()).collect::<Vec<_>>()
+                                ))
+                            } else if da != db {
+                                Some(format!("stores differ: {} items / {} items", da.len(), db.len()))
+                            } else {
+                                None
+                            };
+                            if let Some(d) = differs {
+                                let sig = format!("config-differs|{}", a.alphabet[ci].kind());
+                                let mut f = found.lock().unwrap();
+                                let better = f.get(&sig).map(|o: &Found| nh.len() < o.hist.len()).unwrap_or(true);
+                                if better {
+                                    f.insert(
+                                        sig.clone(),
+                                        Found { clause: "config-differs", signature: sig, detail: d, hist_text: hist_text(a, &nh), hist: nh.clone(), cfg_name: rep_name(a, b) },
+                                    );
+                                }
+                                continue;
+                            }
+                            if apa.pruned || apb.pruned {
+                                continue;
+                            }
+                            if insert((ra.fingerprint(), rb.fingerprint())) {
+                                states.fetch_add(1, Ordering::Relaxed);
+                                local.push(nh);
+                            }
+                        }
+                        if (i & 63) == 0 && (t0.elapsed().as_secs_f64() > a.wall_cap_s || states.load(Ordering::Relaxed) as usize > a.state_cap) {
+                            stop.store(true, Ordering::Relaxed);
+                        }
+                    }
+                    crate::watchdog::idle();
+                    next.lock().unwrap().extend(local);
+                });
+            }
+        });
+        if let Some(e) = mach.lock().unwrap().clone() {
+            rep.machinery_error = Some(e);
+            break;
+        }
+        let mut nx = next.into_inner().unwrap();
+        nx.sort();
+        if stop.load(Ordering::Relaxed) {
+            rep.capped = Some(format!("stopped inside depth {}; depths < {} fully explored", depth + 1, depth + 1));
+            break;
+        }
+        depth += 1;
+        rep.level_states.push(nx.len() as u64);
+        if rep.samples.len() < 3 {
+            if let Some(h) = nx.get(nx.len() / 2) {
+                rep.samples.push(hist_text(a, h));
+            }
+        }
+        frontier = nx;
+    }
+    rep.depth_reached = depth;
+    rep.frontier_emptied = frontier.is_empty() && rep.capped.is_none();
+    rep.states = states.load(Ordering::Relaxed);
+    rep.transitions = transitions.load(Ordering::Relaxed);
+    rep.executions = executions.load(Ordering::Relaxed);
+    rep.found = found.into_inner().unwrap().into_values().collect();
+    rep.wall_s = t0.elapsed().as_secs_f64();
+    rep
+}
+
+fn rep_name(a: &SeqCfg, b: &SeqCfg) -> String {
+    format!("{} vs {}", a.name, b.name)
+}
